@@ -1761,7 +1761,8 @@ fn cmd_check(a: &Args) -> i32 {
                 "prints_after_process_exit_discarded": sum.prints_after_exit,
                 "read_errors_eio_injected_in_gating_runs": sum.read_faults_injected,
                 "runs_in_which_the_output_device_filled_up_enospc_in_gating_runs": sum.write_faults_injected,
-                "hard_io_faults_in_gating_runs": "one kind: EIO on one seeded read in a sixth of the seeded runs; a run that meets it may fail loudly (the pinned generators do: expect()) but may not complete with a different table. Missing files, torn or corrupt content and listing errors stay in the non-gating exploration (DESIGN §4.4)",
+                "metadata_queries_failed_with_eio_in_gating_runs": sum.stat_faults_injected,
+                "hard_io_faults_in_gating_runs": "three kinds, never two in one run: EIO on one seeded read (a sixth of the seeded runs), the output device filling up (ENOSPC, an eighth), EIO on one seeded path-based metadata query (stat; an eighth; 0 injected means the program asks for no metadata, as the pinned generators). A run that meets one may fail loudly (the pinned generators do: expect(), println!) but may not complete with a different table. Missing files, torn or corrupt content and listing errors stay in the non-gating exploration (DESIGN §4.4)",
             },
             "hard_fault_exploration_not_gating": {
                 "note": "separate batch, outcomes counted but never judged: one hard fault per run (EIO / ENOENT on the k-th file read, torn file, flipped bit, error entry in the listing, failing read_dir) on top of the run's ordinary seeded schedule",
@@ -2392,6 +2393,7 @@ fn cmd_trace(a: &Args) -> i32 {
                     .filter_map(|d| match d {
                         Decision::ReadFault { at } => Some(format!("eio@read{}", at)),
                         Decision::WriteFault { at } => Some(format!("enospc@byte{}", at)),
+                        Decision::StatFault { at } => Some(format!("eio@stat{}", at)),
                         _ => None,
                     })
                     .collect();
